@@ -57,6 +57,7 @@ type monitors struct {
 	limitBefore map[string]uint64
 	// C13: entitlement of a single top-level message, evaluated before the tx
 	entitledBefore int // -1 unknown / not applicable, 0 no, 1 yes
+	entitledRole   string
 }
 
 func newMonitors(h *history) *monitors {
@@ -133,7 +134,69 @@ func (m *monitors) snapStream(sn, rc sdk.AccAddress) strSnap {
 	return ss
 }
 
+// entitlement of the signer of a single top-level message, evaluated on the state before the transaction:
+// 1 entitled, 0 not entitled, -1 no claim
+func (m *monitors) entitlement(g genTx) (int, string) {
+	if len(g.msgs) != 1 {
+		return -1, ""
+	}
+	c := m.h.c
+	ctx := c.ctx()
+	inList := func(list, a string) bool {
+		for _, s := range strings.Split(list, ",") {
+			if s == a {
+				return true
+			}
+		}
+		return false
+	}
+	b2i := func(b bool) int {
+		if b {
+			return 1
+		}
+		return 0
+	}
+	switch t := g.msgs[0].m.(type) {
+	case *enttypes.MsgProcessUndPurchaseOrder:
+		return b2i(inList(c.app.EnterpriseKeeper.GetParams(ctx).EntSigners, t.Signer)), "an authorised enterprise signer"
+	case *enttypes.MsgWhitelistAddress:
+		return b2i(inList(c.app.EnterpriseKeeper.GetParams(ctx).EntSigners, t.Signer)), "an authorised enterprise signer"
+	case *enttypes.MsgUndPurchaseOrder:
+		a, _ := sdk.AccAddressFromBech32(t.Purchaser)
+		return b2i(c.app.EnterpriseKeeper.AddressIsWhitelisted(ctx, a)), "a whitelisted purchaser"
+	case *wrktypes.MsgRecordWrkChainBlock:
+		wc, ok := c.app.WrkchainKeeper.GetWrkChain(ctx, t.WrkchainId)
+		return b2i(ok && wc.Owner == t.Owner), "the registered owner"
+	case *wrktypes.MsgPurchaseWrkChainStateStorage:
+		wc, ok := c.app.WrkchainKeeper.GetWrkChain(ctx, t.WrkchainId)
+		return b2i(ok && wc.Owner == t.Owner), "the registered owner"
+	case *bcntypes.MsgRecordBeaconTimestamp:
+		b, ok := c.app.BeaconKeeper.GetBeacon(ctx, t.BeaconId)
+		return b2i(ok && b.Owner == t.Owner), "the registered owner"
+	case *bcntypes.MsgPurchaseBeaconStateStorage:
+		b, ok := c.app.BeaconKeeper.GetBeacon(ctx, t.BeaconId)
+		return b2i(ok && b.Owner == t.Owner), "the registered owner"
+	case *strtypes.MsgClaimStream, *strtypes.MsgTopUpDeposit, *strtypes.MsgUpdateFlowRate, *strtypes.MsgCancelStream:
+		var sn, rc string
+		switch u := t.(type) {
+		case *strtypes.MsgClaimStream:
+			sn, rc = u.Sender, u.Receiver
+		case *strtypes.MsgTopUpDeposit:
+			sn, rc = u.Sender, u.Receiver
+		case *strtypes.MsgUpdateFlowRate:
+			sn, rc = u.Sender, u.Receiver
+		case *strtypes.MsgCancelStream:
+			sn, rc = u.Sender, u.Receiver
+		}
+		return b2i(c.app.StreamKeeper.IsStream(ctx, sdk.MustAccAddressFromBech32(rc), sdk.MustAccAddressFromBech32(sn))), "a party of an existing stream"
+	case *enttypes.MsgUpdateParams, *wrktypes.MsgUpdateParams, *bcntypes.MsgUpdateParams, *strtypes.MsgUpdateParams:
+		return 0, "the governance authority" // a user transaction can never be signed by the gov module account
+	}
+	return -1, ""
+}
+
 func (m *monitors) beforeTx(g genTx) {
+	m.entitledBefore, m.entitledRole = m.entitlement(g)
 	m.strBefore = nil
 	if len(g.msgs) == 1 {
 		switch t := g.msgs[0].m.(type) {
@@ -169,6 +232,31 @@ func (m *monitors) afterTx(g genTx, res txResult, cls int, check bool) {
 		if !now[d].Equal(m.supplyBefore[d]) {
 			m.fail("C02", 0, fmt.Sprintf("a transaction changed the supply of %s from %s to %s", d, m.supplyBefore[d], now[d]))
 		}
+	}
+	// C13 / C09: a message took effect although its signer was not the entitled party
+	if cls == 0 && m.entitledBefore == 0 {
+		what := fmt.Sprintf("%s succeeded although its signer (account %d) was not %s", g.msgs[0].kind, g.msgs[0].signer, m.entitledRole)
+		m.fail("C13", 0, what)
+		if g.msgs[0].typ >= 5 && g.msgs[0].typ <= 9 {
+			m.fail("C09", 0, what)
+		}
+		if g.msgs[0].typ <= 3 {
+			m.fail("C03", 0, what)
+		}
+	}
+	// C09: the owner shown by the registration query is refused as "not the owner"
+	if cls != 0 && m.entitledBefore == 1 && g.sigOK && (strings.Contains(res.Log, "not the owner") || strings.Contains(res.Log, "unauthorised signer")) {
+		what := fmt.Sprintf("%s by account %d, which is %s according to the stored state, was refused: %s", g.msgs[0].kind, g.msgs[0].signer, m.entitledRole, firstLine(res.Log))
+		m.fail("C13", 0, what)
+		if g.msgs[0].typ >= 5 && g.msgs[0].typ <= 9 {
+			m.fail("C09", 0, what)
+		}
+		if g.msgs[0].typ <= 3 {
+			m.fail("C03", 0, what)
+		}
+	}
+	if m.entitledBefore >= 0 {
+		m.h.flags["entitlement_checked"]++
 	}
 	// C11 / C12 on single-message stream transactions whose ante stage cannot fail
 	if m.strBefore != nil && m.strBefore.exists && g.sigOK && g.spec.granter == nil && g.spec.fee.AmountOf("nund").LT(sdk.NewInt(1000)) {
@@ -826,4 +914,14 @@ func (m *monitors) paramsAndSupply(where string) {
 			}
 		}
 	}
+}
+
+func firstLine(s string) string {
+	if i := strings.Index(s, "\n"); i >= 0 {
+		s = s[:i]
+	}
+	if len(s) > 200 {
+		s = s[:200]
+	}
+	return s
 }
